@@ -1,7 +1,7 @@
 (** extraction of the executable C19 model ([nearest] := first arg-min) for the correspondence *)
 From Coq Require Import Ascii String List Bool Arith ZArith QArith.
 From PTBase Require Import Exn PyStr PyNum PyVal Wire.
-From P Require Import Lib Transfer Generators.
+From P Require Import Lib Transfer Generators DataTransfer.
 Import ListNotations.
 Close Scope Q_scope.
 
@@ -84,6 +84,18 @@ Definition dec_gen (s : str) : gen :=
 Definition dec_vol (s : str) : str * Q :=
   match split_c eqc s with [a; b] => (unhex a, q_of_str b) | _ => ([], (0 # 1)%Q) end.
 
+(** t2data objects: source blocks "hexname:hexrock:vol", rock list, print block ("-" = None), incon dict "hexname=tag" *)
+Definition dec_sblock (s : str) : str * (str * Q) :=
+  match split_c colon s with [n; r; v] => (unhex n, (unhex r, q_of_str v)) | _ => ([], ([], (0 # 1)%Q)) end.
+Definition dec_tagged (s : str) : str * nat :=
+  match split_c eqc s with [a; b] => (unhex a, nat_of_str b) | _ => ([], 0) end.
+Definition show_t2d (d : t2d) : str :=
+  tapp (join_c comma (map (fun b => hex (fst b) ++ eqc :: hex (fst (snd b))) (dblocks d)))
+       (tab :: tapp (join_c comma (map hex (drocks d)))
+       (tab :: tapp (match dprint d with None => s2l "-" | Some p => hex p end)
+       (tab :: tapp (join_c comma (map show_gen (dgens d)))
+       (tab :: join_c comma (map (fun kv => hex (fst kv) ++ eqc :: show_nat (snd kv)) (dincon d)))))).
+
 Definition run_case (line : str) : str :=
   match fields line with
   | [k; c; a; l; cs] =>
@@ -123,6 +135,20 @@ Definition run_case (line : str) : str :=
             | Ok gs => s2l "OK" ++ tab :: join_c comma (map show_gen gs)
             | Raise e => raise_line e
             end
+        end
+      else s2l "BADCASE"
+  | [k; c1; a1; l1; cs1; c2; a2; l2; cs2; flags; tops; bots; incols; sblocks; rocks; pblock; dgrid; gens; inc] =>
+      if str_eqb k (s2l "tf") then
+        let src := dec_geom c1 a1 l1 cs1 in let dst := dec_geom c2 a2 l2 cs2 in
+        let rename := match flags with r :: _ => ceqb r "1"%char | [] => false end in
+        let preserve := match flags with _ :: p :: _ => ceqb p "1"%char | _ => false end in
+        let sd := mkD (map dec_sblock (items comma sblocks)) (map unhex (items comma rocks))
+                      (if str_eqb pblock (s2l "-") then None else Some (unhex pblock))
+                      (map dec_gen (items comma gens)) (map dec_tagged (items comma inc)) 0 in
+        match data_transfer nearest_exec sd src dst (map dec_vol (items comma dgrid)) (map unhex (items comma incols))
+                (map unhex (items comma tops)) (map unhex (items comma bots)) rename preserve None with
+        | Ok (d, _) => s2l "OK" ++ tab :: show_t2d d
+        | Raise e => raise_line e
         end
       else s2l "BADCASE"
   | _ => s2l "BADCASE"
